@@ -14,6 +14,7 @@ TABLE = {
     "C12": ("sim.scenarios.state", "C12", "exploration", 4000, 400000),
     "C15": ("sim.scenarios.state", "C15", "exploration", 4000, 400000),
     "C13": ("sim.scenarios.isolation", "SCENARIO", "exploration", 3000, 300000),
+    "C14": ("sim.scenarios.environment", "SCENARIO", "exploration", 4000, 400000),
     "C16": ("sim.scenarios.naming", "SCENARIO", "exploration", 4000, 400000),
     "C17": ("sim.scenarios.containers", "SCENARIO", "exploration", 8000, 800000),
     "C19": ("sim.scenarios.savecrash", "SCENARIO", "fault_enumeration", 1500, 100000),
